@@ -98,11 +98,11 @@ theorem fuel_ok {L fuel : Nat} (hf : L * (L + 2) + 2 ≤ fuel) : cost L L ≤ fu
     type is replaced by its expansion, nothing else changes -/
 theorem processStore_full (st : Store) (h : WF st) (order : List Nat) (hcover : ∀ n ∈ st.map (·.1), n ∈ order)
     (fuel : Nat) (hf : st.length * (st.length + 2) + 2 ≤ fuel) :
-    ∃ st' memo, processStore fuel order st [] = .ok (st', memo) ∧
+    ∃ st' memo, processStore fuel order st [] = .ok (st', memo) ∧ st'.map (·.1) = st.map (·.1) ∧
       ∀ n, st'.get? n = (st.get? n).map (full st) := by
   rcases processStore_run h.toWFS fuel (fuel_ok hf) order st [] (fun _ => Or.inl rfl) (by simp)
     with ⟨st', memo, hrun, hpost, _, hall⟩
-  refine ⟨st', memo, hrun, ?_⟩
+  refine ⟨st', memo, hrun, hpost.names, ?_⟩
   intro n
   cases hg : st.get? n with
   | none => rw [(good_none hpost.good).mpr hg]; rfl
@@ -120,7 +120,7 @@ theorem processStore_spec (st : Store) (h : WF st) (order : List Nat) (hperm : o
       ∀ n sc, st.get? n = some sc →
         ∃ sc', st'.get? n = some sc' ∧ sc'.kids = expand st st.length sc ∧ sc'.bases = sc.bases ∧
           sc'.isObject = sc.isObject := by
-  rcases processStore_full st h order (fun n hn => hperm.mem_iff.mpr hn) fuel hf with ⟨st', memo, hrun, hall⟩
+  rcases processStore_full st h order (fun n hn => hperm.mem_iff.mpr hn) fuel hf with ⟨st', memo, hrun, _, hall⟩
   refine ⟨st', memo, hrun, ?_⟩
   intro n sc hg
   exact ⟨full st sc, by rw [hall n, hg]; rfl, rfl, rfl, rfl⟩
@@ -154,15 +154,17 @@ theorem marks_spec (st : Store) (h : WF st) (n : Nat) (sc : Schema) (hg : st.get
 
 /-! ### (2) order independence -/
 
-/-- (2) ORDER INDEPENDENCE: two processing orders give the same result for every type name -/
+/-- (2) ORDER INDEPENDENCE: two processing orders give the same store (hence the same properties for every type) -/
 theorem order_independent (st : Store) (h : WF st) (o1 o2 : List Nat)
     (h1 : o1.Perm (st.map (·.1))) (h2 : o2.Perm (st.map (·.1)))
     (f1 f2 : Nat) (hf1 : st.length * (st.length + 2) + 2 ≤ f1) (hf2 : st.length * (st.length + 2) + 2 ≤ f2) :
-    ∃ st1 m1 st2 m2, processStore f1 o1 st [] = .ok (st1, m1) ∧ processStore f2 o2 st [] = .ok (st2, m2) ∧
-      ∀ n, st1.get? n = st2.get? n := by
-  rcases processStore_full st h o1 (fun n hn => h1.mem_iff.mpr hn) f1 hf1 with ⟨st1, m1, hr1, ha1⟩
-  rcases processStore_full st h o2 (fun n hn => h2.mem_iff.mpr hn) f2 hf2 with ⟨st2, m2, hr2, ha2⟩
-  exact ⟨st1, m1, st2, m2, hr1, hr2, fun n => by rw [ha1, ha2]⟩
+    ∃ st' m1 m2, processStore f1 o1 st [] = .ok (st', m1) ∧ processStore f2 o2 st [] = .ok (st', m2) := by
+  rcases processStore_full st h o1 (fun n hn => h1.mem_iff.mpr hn) f1 hf1 with ⟨st1, m1, hr1, hn1, ha1⟩
+  rcases processStore_full st h o2 (fun n hn => h2.mem_iff.mpr hn) f2 hf2 with ⟨st2, m2, hr2, hn2, ha2⟩
+  have : st1 = st2 :=
+    store_ext st1 st2 (hn1 ▸ h.names_unique) (hn1.trans hn2.symm) (fun n => by rw [ha1, ha2])
+  subst this
+  exact ⟨st1, m1, m2, hr1, hr2⟩
 
 /-! ### (3) once -/
 
@@ -171,7 +173,7 @@ theorem once (st : Store) (h : WF st) (order : List Nat) (hperm : order.Perm (st
     (fuel : Nat) (hf : st.length * (st.length + 2) + 2 ≤ fuel) (st' : Store) (memo : List Nat)
     (hrun : processStore fuel order st [] = .ok (st', memo)) (n : Nat) (sc' : Schema)
     (hg : st'.get? n = some sc') : ((sc'.kids).map (·.key)).Nodup := by
-  rcases processStore_full st h order (fun n hn => hperm.mem_iff.mpr hn) fuel hf with ⟨st1, memo1, hrun1, hall⟩
+  rcases processStore_full st h order (fun n hn => hperm.mem_iff.mpr hn) fuel hf with ⟨st1, memo1, hrun1, _, hall⟩
   rw [hrun] at hrun1
   injection hrun1 with hrun1
   injection hrun1 with hst _
@@ -196,7 +198,7 @@ theorem bases_unchanged (st : Store) (h : WF st) (order : List Nat) (hperm : ord
         ut'.kids = expand st st.length ut ∧ ut'.bases = ut.bases) ∧
     ∃ sc', st'.get? n = some sc' ∧
       sc'.kids = (sc.bases.flatMap fun b => ((st'.get? b).map fun ut' => ut'.kids.map (mark b)).getD []) ++ sc.kids := by
-  rcases processStore_full st h order (fun n hn => hperm.mem_iff.mpr hn) fuel hf with ⟨st1, memo1, hrun1, hall⟩
+  rcases processStore_full st h order (fun n hn => hperm.mem_iff.mpr hn) fuel hf with ⟨st1, memo1, hrun1, _, hall⟩
   rw [hrun] at hrun1
   injection hrun1 with hrun1
   injection hrun1 with hst _
@@ -240,8 +242,9 @@ theorem process_spec (st : Store) (h : WF st) (sc : Schema) (hsc : WFExt st sc) 
   · have hobj' : sc.isObject = false := by simpa using hobj
     obtain ⟨f, rfl⟩ : ∃ f, fuel = f + 1 := ⟨fuel - 1, by omega⟩
     refine ⟨st', memo, ?_, hst'⟩
-    rw [process, expand_no_bases st _ sc (hsc.obj hobj')]
-    simp [hobj']
+    have hp : process (f + 1) st' memo sc = .ok (st', memo, sc) := by
+      rw [process]; simp [hobj']
+    rw [hp, expand_no_bases st _ sc (hsc.obj hobj')]
 
 /-- the same in the form "whatever `process` returns has the expansion as its properties" -/
 theorem process_spec' (st : Store) (h : WF st) (sc : Schema) (hsc : WFExt st sc) (st' : Store) (memo : List Nat)
